@@ -101,7 +101,9 @@ class Agg:
             rules = prefix + f"rule t {{\n  {clause}\n}}\n"
             rc, rep, err = self.run_structured(exe, rules, [data])
             if not (rep and isinstance(rep, list) and rep):
-                out.append({"clause": clause, "expected": exp, "observed": None, "exit": rc, "stderr": (err or "")[-200:]})
+                # a crash is an observation (and a mismatch with any expected status); anything else means the recipe did not run
+                crashed = rc == 101 or "panicked" in (err or "")
+                out.append({"clause": clause, "expected": exp, "observed": "PANIC (exit %s)" % rc if crashed else None, "exit": rc, "stderr": (err or "")[-200:]})
                 continue
             r = rep[0]
             got = "PASS" if "t" in r.get("compliant", []) else ("SKIP" if "t" in r.get("not_applicable", []) else "FAIL")
